@@ -286,13 +286,17 @@ func runC18(c *explore.Ctx) {
 	c.Units("boundary", len(bcs), func(u int) {
 		c18ReadCase(c, bcs[u].msgs, bcs[u].reads)
 	})
-	ws := [][]int{{0}, {1}, {125}, {126}, {127}, {1024}, {65535}, {65536}, {1, 126, 3}, {1024, 1024, 1}, {0, 5, 0}}
+	ws := [][]int{{0}, {1}, {125}, {126}, {127}, {1024}, {4095}, {4096}, {4097}, {16383}, {16384}, {16385}, {32767}, {32768}, {32769}, {40000}, {49152}, {49153}, {65535}, {65536}, {65537}, {100000}, {1 << 20}, {1, 126, 3}, {1024, 1024, 1}, {0, 5, 0}, {70000, 1, 70000}}
 	c.Units("write", len(ws), func(u int) { c18Write(c, ws[u]) })
 	c18BrokerAll(c)
 }
 
 // ---- broker scope: a valid MQTT stream through the real websocket handler under
 // many segmentations into binary messages
+
+// c18Huge, when non-zero, replaces the third payload size of the "big" stream (forwarded
+// publishes far larger than any internal buffer of the adapter)
+var c18Huge int
 
 func c18Stream(big bool) (stream []byte, wantTypes []string) {
 	add := func(p *refmqtt.Packet) { p.Version = refmqtt.V5; stream = append(stream, refmqtt.Encode(p)...) }
@@ -301,6 +305,9 @@ func c18Stream(big bool) (stream []byte, wantTypes []string) {
 	sizes := []int{0, 10, 100}
 	if big {
 		sizes = []int{0, 10, 1100}
+		if c18Huge != 0 {
+			sizes[2] = c18Huge
+		}
 	}
 	for i, n := range sizes {
 		add(&refmqtt.Packet{Type: refmqtt.PUBLISH, Topic: "t", Payload: []byte(strings.Repeat(string(rune('a'+i)), n))})
@@ -314,10 +321,12 @@ func c18Stream(big bool) (stream []byte, wantTypes []string) {
 	return
 }
 
-func c18Broker(c *explore.Ctx, maxPacket uint32, big bool, cuts []int, label string) {
+func c18Broker(c *explore.Ctx, maxPacket uint32, big bool, cuts []int, label string, huge int) {
+	c18Huge = huge
 	stream, want := c18Stream(big)
+	c18Huge = 0
 	cas := func() any {
-		return map[string]any{"part": "broker", "max_packet_size": maxPacket, "stream_len": len(stream), "cut_positions": cuts, "segmentation": label}
+		return map[string]any{"part": "broker", "max_packet_size": maxPacket, "stream_len": len(stream), "large_publish": huge, "cut_positions": cuts, "segmentation": label}
 	}
 	c.Count("evaluations", 1)
 	c.Count("distinct_nontrivial", 1)
@@ -428,15 +437,16 @@ func c18BrokerAll(c *explore.Ctx) {
 		big       bool
 		cuts      []int
 		label     string
+		huge      int
 	}
 	var jobs []job
 	for _, big := range []bool{false, true} {
 		stream, _ := c18Stream(big)
 		L := len(stream)
-		jobs = append(jobs, job{0, big, nil, "one message"})
+		jobs = append(jobs, job{0, big, nil, "one message", 0})
 		for i := 1; i < L; i++ {
 			if !big || i < 80 || i%7 == 0 || i > L-40 {
-				jobs = append(jobs, job{0, big, []int{i}, "one cut"})
+				jobs = append(jobs, job{0, big, []int{i}, "one cut", 0})
 			}
 		}
 		lim := 40
@@ -445,29 +455,36 @@ func c18BrokerAll(c *explore.Ctx) {
 		}
 		for i := 1; i < lim; i++ {
 			for j := i + 1; j < lim; j++ {
-				jobs = append(jobs, job{0, big, []int{i, j}, "two cuts"})
+				jobs = append(jobs, job{0, big, []int{i, j}, "two cuts", 0})
 			}
 		}
 		var ones []int
 		for i := 1; i <= 48 && i < L; i++ {
 			ones = append(ones, i)
 		}
-		jobs = append(jobs, job{0, big, ones, "one-byte messages for the first 48 bytes"})
+		jobs = append(jobs, job{0, big, ones, "one-byte messages for the first 48 bytes", 0})
 		if big {
 			// messages of exactly 1023 / 1024 / 1025 bytes
 			for _, sz := range []int{1023, 1024, 1025} {
 				for start := 0; start+sz <= L; start += 17 {
-					jobs = append(jobs, job{0, big, []int{start, start + sz}, fmt.Sprintf("a %d-byte message", sz)})
+					jobs = append(jobs, job{0, big, []int{start, start + sz}, fmt.Sprintf("a %d-byte message", sz), 0})
 				}
 			}
 		}
 	}
 	// small configured max_packet_size: many in-limit packets packed into one large message
-	jobs = append(jobs, job{128, false, nil, "all packets in one message larger than max_packet_size"}, job{128, false, []int{40}, "two messages, second larger than max_packet_size"})
+	jobs = append(jobs, job{128, false, nil, "all packets in one message larger than max_packet_size", 0}, job{128, false, []int{40}, "two messages, second larger than max_packet_size", 0})
+	// forwarded publishes far larger than the adapter's buffers (and than 16/32/48/64 KiB)
+	for _, h := range []int{4000, 16380, 16400, 33000, 40000, 50000, 66000, 140000} {
+		jobs = append(jobs, job{0, true, nil, "one message, large publish", h})
+		for _, cut := range []int{1, 60, 4096, 16384, h / 2, h - 1, h + 20} {
+			jobs = append(jobs, job{0, true, []int{cut}, "one cut, large publish", h})
+		}
+	}
 	c.Extra["broker_segmentations"] = len(jobs)
 	c.Units("broker", len(jobs), func(u int) {
 		j := jobs[u]
-		c18Broker(c, j.maxPacket, j.big, j.cuts, j.label)
+		c18Broker(c, j.maxPacket, j.big, j.cuts, j.label, j.huge)
 		if u%211 == 0 {
 			c.Sample(map[string]any{"part": "broker", "segmentation": j.label, "cuts": j.cuts})
 		}
